@@ -17,10 +17,10 @@ def _variant(rng, case):
     c = {k: (list(v) if isinstance(v, list) else v) for k, v in case.items()}
     c["trans"] = [list(t) for t in case["trans"]]
     how = rng.pick(["sink", "unreachable", "rename", "extra_symbol_sink", "determinised", "same", "dup_eps"])
-    pool = [s for s in (G.INT_STATES if case["valmode"] == "int" else G.PLAIN_STATES + ["q6", "q7", "q8", "q9"])
+    pool = [s for s in (G.INT_STATES if case["valmode"] == "int" else G.PLAIN_STATES) + ["u6", "u7", "u8", "u9"]
             if s not in case["states"]]
     if case["valmode"] == "int":
-        pool += ["6", "7", "8", "9"]
+        pool = [s for s in pool if s.isdigit()] + ["16", "17", "18", "19"]
     if how == "sink" and pool:
         sink = pool[0]
         c["states"] = c["states"] + [sink]
@@ -74,7 +74,7 @@ def _variant(rng, case):
                     todo.append(T)
                 trans.append([ids[S], a, ids[T]])
         if len(ids) <= 10:
-            names = (G.INT_STATES + ["6", "7", "8", "9"]) if case["valmode"] == "int" else ["d%d" % i for i in range(10)]
+            names = [str(20 + i) for i in range(10)] if case["valmode"] == "int" else ["d%d" % i for i in range(10)]
             c["kind"] = "dfa" if rng.chance(0.5) else "nfa"
             c["states"] = [names[i] for i in range(len(ids))]
             c["trans"] = [[names[p], a, names[q]] for p, a, q in trans]
